@@ -32,11 +32,13 @@ RT_FUNCS = {
     '_ZSt21__throw_runtime_errorPKc': 'vf_abort1', '_ZSt24__throw_invalid_argumentPKc': 'vf_abort1',
     '_ZSt20__throw_out_of_rangePKc': 'vf_abort1',
     'sched_yield': 'vf_sched_yield', 'pthread_yield': 'vf_sched_yield',
+    'nanosleep': 'vf_nanosleep',
     '__cxa_guard_acquire': 'vf_guard_acquire', '__cxa_guard_release': 'vf_guard_release',
     '__cxa_guard_abort': 'vf_guard_release',
     '__cxa_atexit': 'vf_cxa_atexit', '__cxa_thread_atexit': 'vf_cxa_thread_atexit',
     'strlen': 'vf_strlen', 'strcmp': 'vf_strcmp', 'memcmp': 'vf_memcmp', 'strchr': 'vf_strchr',
-    'memchr': 'vf_memchr', 'strtol': 'vf_strtol',
+    'memchr': 'vf_memchr', 'strtol': 'vf_strtol', '__sched_cpucount': 'vf_sched_cpucount',
+    '_ZNSt7__cxx1112basic_stringIcSt11char_traitsIcESaIcEE9_M_createERmm': 'vf_string_M_create',
     '__errno_location': 'vf_errno_location',
     'clock_gettime': 'vf_clock_gettime',
     '_ZNSt6chrono3_V212steady_clock3nowEv': 'vf_steady_now',
@@ -60,6 +62,9 @@ RT_FUNCS = {
 # primitives after which the calling thread may have been declared dead (stuck forever)
 BLOCKING = {'syscall', 'vf_block_until', 'vf_join', 'vf_futex_wait', 'pthread_mutex_lock',
             'vf_thread_exit'}
+# seq mode: external calls after which a thread root may have to give up the processor
+SEQ_BLOCKING = {'pthread_mutex_lock', '__cxa_guard_acquire', 'vf_block_until', 'vf_join'}
+SEQ_YIELDING = {'sched_yield', 'pthread_yield'}
 NORETURN_RT = {'vf_abort', 'vf_abort1', 'vf_abort1i', 'vf_abort_va', 'vf_assert_fail', 'vf_exit',
                'vf_call_terminate'}
 THROWING_RT = {'__cxa_throw', '__cxa_rethrow', '_ZSt17rethrow_exceptionNSt15__exception_ptr13exception_ptrE',
@@ -88,6 +93,13 @@ class Emitter:
         self.strs = {}
         self.spawns = []
         self.nsw_check = bool(self.opts.get('nsw_check'))
+        # sequentialised (step machine) mode: thread roots become resumable functions
+        self.seq = bool(self.opts.get('seq'))
+        self.cur_root = None      # spawn index of the root being emitted (seq mode)
+        self.nyield = 0
+        self.root_yields = []
+        self.spawn_k = {}         # id(call instr) -> spawn index (seq mode, from the pre-scan)
+        self.seq_roots = []       # [(k, function name)] incl. (0, 'vf_main')
 
     # ------------------------------------------------------------------ types
     def ity(self, bits, signed=False):
@@ -241,8 +253,10 @@ class Emitter:
             if kind == 'fptr':
                 ps = ', '.join(self.cty(p) for p in ty.params)
                 if ty.vararg:
-                    ps = ps + ', ...' if ps else '...'
-                if not ps:
+                    ps = ps + ', ...' if ps else None
+                if ps is None:
+                    ps = ''  # `i32 (...)*` (vptr slot type): C has no `(...)`; unspecified parameter list
+                elif not ps:
                     ps = 'void'
                 lines.append('typedef %s (*%s)(%s);' % (self.cty(ty.ret), cname, ps))
         # struct definitions in by-value dependency order
@@ -372,6 +386,8 @@ class Emitter:
             self.note_func_use(name)
             return '((%s)&%s)' % (self.fptr_name(f.fty), self.fname(name))
         if name in self.mod.globals:
+            if self.seq and self.mod.globals[name].tls:
+                return '(&%s[vf_tid])' % self.gname(name)
             return '(&%s)' % self.gname(name)
         raise Unsupported('unknown global @%s' % name)
 
@@ -502,7 +518,7 @@ class Emitter:
                             ind = True
             calls[f.name] = s
             direct[f.name] = ind
-        seeds = set(BLOCKING)
+        seeds = set() if self.seq else set(BLOCKING)
         if self.exceptions:
             seeds |= THROWING_RT
         any_seed = any(s & seeds for s in calls.values())
@@ -521,10 +537,12 @@ class Emitter:
         self.may_abort = may
         self.any_abort = any_seed
 
-    def emit_function(self, f):
+    def emit_function(self, f, root_k=None):
         mod = self.mod
         L = []
         w = L.append
+        self.cur_root = root_k
+        self.root_yields = []
         # collect local declarations
         decls = []
         phis = {}  # block -> [phi instr]
@@ -543,26 +561,73 @@ class Emitter:
                         decls.append('%s m_%s;' % (self.cty(ins.aty), self.lname(ins.res)))
                     else:
                         decls.append('%s m_%s[%d];' % (self.cty(ins.aty), self.lname(ins.res), n))
-        w(self.proto(f) + ' {')
-        for d in decls:
-            w('  ' + d)
         self.cur = f
         self.cur_phis = phis
         self.tmpn = 0
+        if root_k is None:
+            w(self.proto(f) + ' {')
+            for d in decls:
+                w('  ' + d)
+            for b in f.blocks:
+                w(' %s: ;' % self.blabel(b.name))
+                for ins in b.instrs:
+                    if ins.op == 'phi':
+                        continue
+                    self.emit_instr(ins, b, w)
+            w('}')
+            return L
+        # resumable thread root (step machine): locals are static, every yield point is a label the
+        # function can be re-entered at through vf_pc[k]
+        body = []
+        wb = body.append
         for b in f.blocks:
-            w(' %s: ;' % self.blabel(b.name))
+            wb(' %s: ;' % self.blabel(b.name))
             for ins in b.instrs:
                 if ins.op == 'phi':
                     continue
-                self.emit_instr(ins, b, w)
+                self.emit_instr(ins, b, wb)
+        w('void vf_root_%d(void) {' % root_k)
+        for p in f.params:
+            w('  static %s %s;' % (self.cty(p.ty), self.lname(p.name)))
+        for d in decls:
+            w('  static ' + d)
+        w('  switch (vf_pc[%d]) {' % root_k)
+        w('    case 0: break;')
+        for y in self.root_yields:
+            w('    case %d: goto Y_%d;' % (y, y))
+        w('    default: __CPROVER_assert(0, "rt: bad resume point"); return;')
+        w('  }')
+        if f.params:
+            p = f.params[0]
+            w('  %s = (%s)vf_thr_arg[%d];' % (self.lname(p.name), self.cty(p.ty), root_k))
+        L.extend(body)
         w('}')
+        self.cur_root = None
         return L
+
+    def seq_yield(self, w, forced=False):
+        """yield point of a thread root: the scheduler may switch to another thread here"""
+        self.nyield += 1
+        y = self.nyield
+        self.root_yields.append(y)
+        k = self.cur_root
+        if forced:
+            w('  { vf_pc[%d] = %d; vf_paused = 1; return; } Y_%d: ;' % (k, y, y))
+        else:
+            w('  if (vf_preempt(%d)) { vf_pc[%d] = %d; return; } Y_%d: ;' % (k, k, y, y))
+        return y
+
+    def seq_block_check(self, w, y):
+        k = self.cur_root
+        w('  if (vf_blk) { vf_blk = 0; vf_pc[%d] = %d; return; }' % (k, y))
 
     def blabel(self, name):
         return 'B_' + re.sub(r'[^A-Za-z0-9_]', '_', name)
 
     def retdummy(self):
         f = self.cur
+        if self.cur_root is not None:
+            return '{ vf_thread_done(%d); vf_pc[%d] = -1; return; }' % (self.cur_root, self.cur_root)
         if f.ret.kind == 'void':
             return 'return;'
         return 'return %s;' % self.zero_expr(f.ret)
@@ -606,6 +671,9 @@ class Emitter:
     def emit_instr(self, ins, b, w):
         op = ins.op
         r = self.lname(ins.res) if ins.res is not None else None
+        if self.cur_root is not None and (op in ('fence', 'atomicrmw', 'cmpxchg') or
+                                          (op in ('load', 'store') and ins.atomic)):
+            self.seq_yield(w)
         if op == 'bin':
             w('  %s = %s;' % (r, self.bin_expr(ins)))
             if self.nsw_check and 'nsw' in ins.flags and ins.bop in ('add', 'sub', 'mul'):
@@ -638,6 +706,8 @@ class Emitter:
                 w('    case %s: %s' % (self.val(cv), self.edge(b.name, lbl)))
             w('    default: %s' % self.edge(b.name, ins.dflt))
             w('  }')
+        elif op == 'ret' and self.cur_root is not None:
+            w('  ' + self.retdummy())
         elif op == 'ret':
             if ins.v is None:
                 w('  return;')
@@ -861,8 +931,16 @@ class Emitter:
                 args = ['(uint64_t)%s' % self.val(a) for a in ins.args]
                 while len(args) < 7:
                     args.append('0')
+                y = self.seq_yield(w) if self.cur_root is not None else None
                 w('  %svf_syscall(%s);' % ((r + ' = ') if r else '', ', '.join(args)))
-                finish(True)
+                if self.seq:
+                    if y is not None:
+                        self.seq_block_check(w, y)
+                    else:
+                        w('  VF_NOBLOCK();')
+                    finish(False)
+                else:
+                    finish(True)
                 return
             f = self.mod.funcs.get(name)
             if f is None:
@@ -879,6 +957,21 @@ class Emitter:
             call = '%s(%s)' % (self.fname(name), ', '.join(args))
             if r and f.is_decl and name in RT_FUNCS:
                 call = '(%s)%s' % (self.cty(ins.ty), call) if ins.ty.kind in ('ptr', 'int') else call
+            if self.seq and f.is_decl and name in SEQ_YIELDING:
+                if self.cur_root is not None:
+                    self.seq_yield(w, forced=True)
+                w('  %s%s;' % ((r + ' = ') if r else '', call))
+                finish(False)
+                return
+            if self.seq and f.is_decl and name in SEQ_BLOCKING:
+                y = self.seq_yield(w) if self.cur_root is not None else None
+                w('  %s%s;' % ((r + ' = ') if r else '', call))
+                if y is not None:
+                    self.seq_block_check(w, y)
+                else:
+                    w('  VF_NOBLOCK();')
+                finish(name in self.may_abort)
+                return
             w('  %s%s;' % ((r + ' = ') if r else '', call))
             finish(name in self.may_abort or self.fname(name) in NORETURN_RT and False)
             return
@@ -903,10 +996,18 @@ class Emitter:
                 w('  VF_REACH("%s");' % label)
             return True
         if name == 'vf_atomic_begin':
-            w('  __CPROVER_atomic_begin();')
+            w('  vf_in_ghost++;' if self.seq else '  __CPROVER_atomic_begin();')
             return True
         if name == 'vf_atomic_end':
-            w('  __CPROVER_atomic_end();')
+            w('  vf_in_ghost--;' if self.seq else '  __CPROVER_atomic_end();')
+            return True
+        if name == 'vf_join_all' and self.seq:
+            y = self.seq_yield(w) if self.cur_root is not None else None
+            w('  vf_join_all();')
+            if y is not None:
+                self.seq_block_check(w, y)
+            else:
+                w('  VF_NOBLOCK();')
             return True
         if name == 'vf_assume':
             w('  __CPROVER_assume(%s);' % self.val(a[0]))
@@ -920,6 +1021,13 @@ class Emitter:
             if not isinstance(base, GlobalRef) or base.name not in self.mod.funcs:
                 raise Unsupported('vf_spawn needs a constant function')
             self.note_func_use(base.name)
+            if self.seq:
+                k = self.spawn_k.get(id(ins))
+                if k is None:
+                    raise Unsupported('vf_spawn outside vf_main (seq mode)')
+                w('  __CPROVER_assert(!vf_spawned[%d], "rt: spawn site executed twice"); '
+                  'vf_thr_arg[%d] = (uint64_t)%s; vf_spawned[%d] = 1;' % (k, k, arg, k))
+                return True
             k = len(self.spawns) + 1
             self.spawns.append((k, base.name))
             w('  __CPROVER_assert(!vf_spawned[%d], "rt: spawn site executed twice"); '
@@ -942,7 +1050,10 @@ class Emitter:
     def emit_asm(self, ins, asm, r, w):
         t = asm.text.strip()
         if t in ('pause', 'yield', '', 'rep; nop', 'rep nop'):
-            w('  VF_PAUSE();')
+            if self.cur_root is not None and t:
+                self.seq_yield(w, forced=True)
+            else:
+                w('  VF_PAUSE();')
             return
         m = re.fullmatch(r'bsr([ql])?\s+\$1,\s*\$0', t)
         if m and r:
@@ -1111,6 +1222,25 @@ class Emitter:
         body = []
         protos = []
         order = [n for n in mod.funcs if n in funcs]
+        root_names = set()
+        if self.seq:
+            # pre-scan: spawn sites (only in vf_main) and the functions they start
+            self.seq_roots = [(0, 'vf_main')]
+            root_names.add('vf_main')
+            fm = mod.funcs.get('vf_main')
+            for b in (fm.blocks if fm else []):
+                for ins in b.instrs:
+                    if ins.op in ('call', 'invoke') and isinstance(ins.callee, GlobalRef) \
+                            and ins.callee.name == 'vf_spawn':
+                        base = ins.args[0]
+                        while isinstance(base, ConstExpr):
+                            base = base.args[0]
+                        if not isinstance(base, GlobalRef) or base.name not in mod.funcs:
+                            raise Unsupported('vf_spawn needs a constant function')
+                        k = len(self.seq_roots)
+                        self.spawn_k[id(ins)] = k
+                        self.seq_roots.append((k, base.name))
+                        root_names.add(base.name)
         for n in order:
             f = mod.funcs[n]
             if n.startswith('llvm.') or n == 'syscall':
@@ -1122,8 +1252,20 @@ class Emitter:
             f = mod.funcs[n]
             if f.is_decl or n.startswith('llvm.'):
                 continue
+            if n == 'vf_main' and self.seq:
+                continue
             body.extend(self.emit_function(f))
             body.append('')
+        if self.seq:
+            for k, n in self.seq_roots:
+                protos.append('void vf_root_%d(void);' % k)
+                body.extend(self.emit_function(mod.funcs[n], root_k=k))
+                body.append('')
+            body.append('void vf_round(void) {')
+            for k, n in self.seq_roots:
+                body.append('  if (vf_slot_begin(%d)) { vf_tid = %d; vf_root_%d(); }' % (k, k, k))
+            body.append('}')
+            body.append('const int vf_nroots = %d;' % len(self.seq_roots))
         # externals that are neither runtime nor vf vocabulary: declare (cbmc: nondet result)
         for n in sorted(self.unknown_externals):
             f = mod.funcs[n]
@@ -1139,6 +1281,16 @@ class Emitter:
                 continue
             T = self.cty(g.ty)
             tls = '__thread ' if g.tls else ''
+            if self.seq and g.tls:
+                # one instance per model thread, selected by vf_tid
+                gdecl.append('extern %s %s[VF_NTHREADS];' % (T, self.gname(n)))
+                if g.init is None or isinstance(g.init, (ConstZero, ConstUndef)):
+                    gl.append('%s %s[VF_NTHREADS];' % (T, self.gname(n)))
+                else:
+                    one = self.init(g.init)
+                    gl.append('%s %s[VF_NTHREADS] = { %s };' % (
+                        T, self.gname(n), ', '.join([one] * int(self.opts.get('nthreads', 5)))))
+                continue
             gdecl.append('%s%s %s;' % ('extern ' + tls if True else '', T, self.gname(n)))
             if g.init is None:
                 gl.append('%s%s %s; /* external global, zero */' % (tls, T, self.gname(n)))
